@@ -6,7 +6,26 @@ Several processes of a composite propose different initial values for one variab
 seed of the interpreter (finding F44: the processes used to be visited as a `set` of names)."""
 import itertools
 
+from vivarium.core.process import Process as _Process
+
 _ids = itertools.count()
+
+
+class ConfiguredStart(_Process):
+    """its initial values come from the configuration handed to initial_state() (module level: it is pickled when
+    wrapped for parallel execution)"""
+    name = 'growth'
+    defaults = {'density': 2.0}
+
+    def ports_schema(self):
+        return {'cell': {'mass': {'_default': 0.0}, 'volume': {'_default': 0.0}}}
+
+    def initial_state(self, config=None):
+        mass = (config or {}).get('mass', 1.0)
+        return {'cell': {'mass': mass, 'volume': mass / self.parameters['density']}}
+
+    def next_update(self, timestep, states):
+        return {}
 NAMES = ['alpha', 'beta', 'gamma', 'delta', 'eps', 'zeta', 'eta', 'theta', 'iota', 'kappa', 'p1', 'p2', 'q', 'zz']
 
 
@@ -15,7 +34,8 @@ def gen_case(rng):
     return {'kind': 'initorder', 'names': rng.sample(NAMES, n), 'steps': rng.choice([0, 0, 1]),
             'values': [rng.randrange(1, 100) for _ in range(n)],
             'mode': rng.choice(['order', 'order', 'other-composite', 'dict-values', 'list-units', 'merge-path',
-                                'merge-path']),
+                                'merge-path', 'parallel-config']),
+            'mass': rng.choice([3.0, 0.5, 7.0]),
             'n': rng.choice([1, 1, 2, 3]), 'second': rng.choice(['meter', 'gram', 'none']),
             'depth': rng.choice([1, 2, 3]), 'via': rng.choice(['state', 'composite']),
             'dicts': rng.choice([['sub', 'super'], ['super', 'sub'], ['same', 'same'], ['sub', 'other']])}
@@ -36,7 +56,9 @@ def corpus():
             {'kind': 'initorder', 'mode': 'list-units', 'n': 2, 'second': 'gram'},
             # a state merged in together with a path belongs below that path
             {'kind': 'initorder', 'mode': 'merge-path', 'depth': 2, 'via': 'state', 'values': [10, 20]},
-            {'kind': 'initorder', 'mode': 'merge-path', 'depth': 1, 'via': 'composite', 'values': [10, 20]}]
+            {'kind': 'initorder', 'mode': 'merge-path', 'depth': 1, 'via': 'composite', 'values': [10, 20]},
+            # a process wrapped for parallel execution is handed the same configuration as the plain one
+            {'kind': 'initorder', 'mode': 'parallel-config', 'mass': 3.0}]
 
 
 def run_impl(case):
@@ -118,6 +140,26 @@ def run_impl(case):
             obs['built'] = False
             obs['error'] = type(e).__name__
         return obs
+    if case.get('mode') == 'parallel-config':
+        from vivarium.core.process import ParallelProcess
+        wrapped = None
+        try:
+            topo = {'growth': {'cell': ('agents', 'a', 'cell')}}
+            config = {'growth': {'mass': case['mass']}}
+            serial = Composite({'processes': {'growth': ConfiguredStart()}, 'topology': topo})
+            obs['serial'] = serial.initial_state(config)
+            wrapped = ParallelProcess(ConfiguredStart())
+            par = Composite({'processes': {'growth': wrapped}, 'topology': topo})
+            obs['parallel'] = par.initial_state(config)
+        except Exception as e:  # noqa
+            obs['raised'] = f'{type(e).__name__}: {str(e)[:200]}'
+        finally:
+            if wrapped is not None:
+                try:
+                    wrapped.end()
+                except Exception:  # noqa
+                    pass
+        return obs
     if case.get('mode') == 'merge-path':
         v0, v1 = case['values'][:2]
         path = ('agents', '1', 'cell')[:case['depth']]
@@ -194,6 +236,13 @@ def oracle(case, impl):
         if impl['units'] != 'gram' or not impl['value_ok']:
             return [f'units-of-default: a variable declared with a default of {n} quantities in gram has units '
                     f'{impl["units"]}' + ('' if impl['value_ok'] else ' and another value than its default')]
+        return []
+    if case.get('mode') == 'parallel-config':
+        want = {'agents': {'a': {'cell': {'mass': case['mass'], 'volume': case['mass'] / 2.0}}}}
+        if impl['serial'] != want or impl['parallel'] != want:
+            return [f'parallel-config: initial_state({{growth: {{mass: {case["mass"]}}}}}) gives {impl["serial"]} for the '
+                    f'plain process and {impl["parallel"]} for the same process wrapped as a ParallelProcess; both '
+                    f'must be {want}']
         return []
     if case.get('mode') == 'merge-path':
         v0, v1 = case['values'][:2]
